@@ -37,7 +37,7 @@ OPS = {
 }
 
 
-def ref_parse(L, r0, T, kind, maxib, steps):
+def ref_parse(L, r0, T, kind, maxib, steps, MAX_ITEMS=MAX_ITEMS):
     """Reference block-stream parser (byte-level state machine, so that byte t of the logical input is
     read at step t) from a state with r0 items left in the current block.  Returns (items[4], total,
     states, wf); states[t] = (pos=t, cbr, done, cnt, at_item_end) describes the parse after t bytes, at
@@ -97,11 +97,13 @@ def blocks_task(spec):
     maxib = 1 if kind == 'u8' else spec.get('maxib', 2)
     sz = 1 if kind == 'u8' else 4
     w = 8 * sz
+    MAX_ITEMS = spec.get('max_items', 4)
     M = MAX_ITEMS * maxib + MAX_ITEMS + 1
     steps = M
     CAP = MAX_ITEMS
+    boundary_only = spec.get('state', 'any') == 'boundary'
     capfix = spec.get('cap')
-    tag = "B.%s.N%d%s" % (op, N, ('.cap%d' % capfix) if capfix else '')
+    tag = "B.%s.N%d.n%d%s%s" % (op, N, spec.get('max_items', 4), ('.cap%d' % capfix) if capfix else '', '.bnd' if spec.get('state', 'any') == 'boundary' else '')
     tally = Tally()
     O = lambda s_: "%s.%s" % (tag, s_)
     is_vec = op.startswith('RBIV')
@@ -119,8 +121,10 @@ def blocks_task(spec):
         L, T = st['L'], st['T']
         r0 = z3.BitVec('r0', 64)
         ex.assume(z3.ULE(r0, BV64(MAX_ITEMS)))
-        items, total, states, wf = ref_parse(L, r0, T, kind, maxib, steps)
+        items, total, states, wf = ref_parse(L, r0, T, kind, maxib, steps, MAX_ITEMS)
         ex.assume(wf)
+        if boundary_only:
+            ex.assume(st['p'] == st['e'])   # reader at a refill boundary (fresh, or buffer exactly drained)
         remo = Obj('current_block_remaining', 8)
         ex.store_val(Ptr(remo, 0), ir.I64, r0, check=False)
         st.update(r0=r0, items=items, total=total, states=states, remo=remo)
